@@ -266,6 +266,16 @@ Example write_state_faults_outside_invariant :
 Proof. vm_compute. reflexivity. Qed.
 Print Assumptions write_state_faults_outside_invariant.
 
+(** the key reported by an exhausted iterator (4-bit-chunk common prefix, odd length padded), and
+    the u32 reference count of a locked prefix *)
+Example exhausted_key_and_lock_overflow :
+  exhausted_key [([3], 0); ([3; 10], 1); ([10], 2)] = [0]
+  /\ exhausted_key [([3; 10], 0); ([3; 10; 17], 1)] = [3; 10]
+  /\ lock_add [3] [([3], 4294967295)] = None
+  /\ lock_add [3] [([3], 4294967294)] = Some [([3], 4294967295)].
+Proof. repeat split; vm_compute; reflexivity. Qed.
+Print Assumptions exhausted_key_and_lock_overflow.
+
 (** observation O1: `simple_transfer` charges BASE_ACTION_COST; the constant
     BASE_SIMPLE_TRANSFER_ACTION_COST of the schedule file is not applied by any host function *)
 Example simple_transfer_charges_base_action_cost :
